@@ -30,6 +30,7 @@ fn gen(seed: u64, idx: u64, _tier: Tier) -> Plan {
         f.c2s_dup = 0;
         f.s2c_dup = 0;
         f.c2s_phantom = 0;
+        f.c2s_truncate = 0;
     }
     // every worker is certain to receive traffic
     plan.world.round_robin = true;
